@@ -719,6 +719,25 @@ func c09Cli(args []string) error {
 	}
 	rng := vh.NewRand(17)
 	rng.Shuffle(len(cands), func(i, j int) { cands[i], cands[j] = cands[j], cands[i] })
+	{ // interleave the kinds (malformed templates are rare among the vectors)
+		by := map[string][]vector{}
+		for _, v := range cands {
+			by[v.Kind] = append(by[v.Kind], v)
+		}
+		cands = cands[:0]
+		for i := 0; len(cands) < 4**max; i++ {
+			added := false
+			for _, k := range []string{"rt", "err", "esc"} {
+				if i < len(by[k]) {
+					cands = append(cands, by[k][i])
+					added = true
+				}
+			}
+			if !added {
+				break
+			}
+		}
+	}
 	base := []string{"expression", "-r", "-n"}
 	for _, d := range cliData {
 		base = append(base, "-d", d)
@@ -732,9 +751,6 @@ func c09Cli(args []string) error {
 	for _, v := range cands {
 		if runs >= *max {
 			break
-		}
-		if kinds[v.Kind] > *max/2 {
-			continue
 		}
 		text := vh.RunesFromInts(v.Text)
 		want, ok := "", true
